@@ -202,6 +202,17 @@ def run(item):
         elif a == 'w':
             listed_x.add('w')
             P('guess-arg', 'w0 == arg', {d: trs[d].V['w'][0] for d in doms}, {d: argval(i, 0, d) for d in doms})
+    # twin (vacuity): a listed parameter argument is not what a different parameter reads
+    twins_ok = twins_bad = 0
+    for i, a in enumerate(item['args']):
+        if a == 'p:a':
+            r, m = ch.neq(trz.P['b'][0], I.rdom.wrap(zargs[i][0]))
+            ch.stats['unsat'] -= 1 if r == 'unsat' else 0
+            if r == 'sat':
+                twins_ok += 1
+            else:
+                twins_bad += 1
+            break
     # unlisted parameters / variables keep their current values
     cur = I.named.traj(I.prog.run(I.fdom, nlp.split(x0cur, nlp.xsyms) + nlp.split(pcur, nlp.psyms))[4:4 + nn], I.fdom)
     for p in spec.params:
@@ -298,7 +309,7 @@ def run(item):
         V('anchor-x0', 'x0', 'imperative set_initial gives a different starting point than the Function on entries %s: %s vs %s' % (badx[:6], [float(xi[j]) for j in badx[:6]], [float(xa[j]) for j in badx[:6]]))
     if not badx and not badp:
         ch.proved.append('imperative x0/p == pre(values) (ground)')
-    r_ = result(I, ch, {'violations': viol, 'shape': '%s|%s->%s' % (cfg.tag(), item['args'], item['results']),
+    r_ = result(I, ch, {'violations': viol, 'twins_ok': twins_ok, 'twins_bad': twins_bad, 'shape': '%s|%s->%s' % (cfg.tag(), item['args'], item['results']),
                         'sample': {'cfg': cfg.tag(), 'args': item['args'], 'results': item['results'], 'graph': [solver[1].name(), helper[1].name() if helper else None], 'proved': len(ch.proved)}})
     if viol:
         r_['status'] = 'violation'
